@@ -142,6 +142,9 @@ def check_fast_guard(project: Project, rep):
         rep.unmodelled("PI-FAST", fi, fi.node, f"dispatch condition not evaluable ({ex})")
         return
     node = seen["fast"][0][1]
+    if bad is not None and I.lossy:
+        rep.unmodelled("PI-FAST", fi, node, f"the dispatch could not be followed exactly ({I.lossy[0]['why']})")
+        return
     if bad is None:
         rep.discharged("PI-FAST", fi, node, "the isotropic closed form is reached only for equal variances and zero covariance "
                                             "(every other covariance goes to the kernel itself)")
